@@ -5,7 +5,6 @@
 package jsonschema
 
 import (
-	"bytes"
 	"cmp"
 	"encoding/binary"
 	"encoding/json"
@@ -30,8 +29,9 @@ func Equal(x, y any) bool {
 }
 
 func equalValue(x, y reflect.Value) bool {
-	// Copied from src/reflect/deepequal.go, omitting the visited check (because JSON
-	// values are trees).
+	// Pointers and interfaces are transparent: a JSON value is the same value
+	// whether or not it is held behind them. A nil pointer or interface is JSON null.
+	x, y = indirectValue(x), indirectValue(y)
 	if !x.IsValid() || !y.IsValid() {
 		return x.IsValid() == y.IsValid()
 	}
@@ -39,14 +39,19 @@ func equalValue(x, y reflect.Value) bool {
 	// Treat numbers specially.
 	rx, ok1 := jsonNumber(x)
 	ry, ok2 := jsonNumber(y)
-	if ok1 && ok2 {
-		return rx.Cmp(ry) == 0
-	}
-	if x.Kind() != y.Kind() {
-		return false
+	if ok1 || ok2 {
+		// A number (including a json.Number) equals only another number.
+		return ok1 && ok2 && rx.Cmp(ry) == 0
 	}
 	switch x.Kind() {
-	case reflect.Array:
+	case reflect.Array, reflect.Slice:
+		// Arrays and slices both represent JSON arrays, whatever their element type.
+		if y.Kind() != reflect.Array && y.Kind() != reflect.Slice {
+			return false
+		}
+		if x.Kind() == reflect.Slice && y.Kind() == reflect.Slice && x.IsNil() != y.IsNil() {
+			return false
+		}
 		if x.Len() != y.Len() {
 			return false
 		}
@@ -56,39 +61,9 @@ func equalValue(x, y reflect.Value) bool {
 			}
 		}
 		return true
-	case reflect.Slice:
-		if x.IsNil() != y.IsNil() {
-			return false
-		}
-		if x.Len() != y.Len() {
-			return false
-		}
-		if x.UnsafePointer() == y.UnsafePointer() {
-			return true
-		}
-		// Special case for []byte, which is common.
-		if x.Type().Elem().Kind() == reflect.Uint8 && x.Type() == y.Type() {
-			return bytes.Equal(x.Bytes(), y.Bytes())
-		}
-		for i := range x.Len() {
-			if !equalValue(x.Index(i), y.Index(i)) {
-				return false
-			}
-		}
-		return true
-	case reflect.Interface:
-		if x.IsNil() || y.IsNil() {
-			return x.IsNil() == y.IsNil()
-		}
-		return equalValue(x.Elem(), y.Elem())
-	case reflect.Pointer:
-		if x.UnsafePointer() == y.UnsafePointer() {
-			return true
-		}
-		return equalValue(x.Elem(), y.Elem())
 	case reflect.Struct:
 		t := x.Type()
-		if t != y.Type() {
+		if y.Kind() != reflect.Struct || t != y.Type() {
 			return false
 		}
 		for i := range t.NumField() {
@@ -102,26 +77,35 @@ func equalValue(x, y reflect.Value) bool {
 		}
 		return true
 	case reflect.Map:
+		if y.Kind() != reflect.Map {
+			return false
+		}
 		if x.IsNil() != y.IsNil() {
 			return false
 		}
 		if x.Len() != y.Len() {
 			return false
 		}
-		if x.UnsafePointer() == y.UnsafePointer() {
-			return true
+		// The key types may differ (for example string and a named string type):
+		// keys are compared as strings.
+		kx, ky := x.Type().Key(), y.Type().Key()
+		if kx.Kind() != reflect.String || ky.Kind() != reflect.String {
+			return false
 		}
 		iter := x.MapRange()
 		for iter.Next() {
-			vx := iter.Value()
-			vy := y.MapIndex(iter.Key())
-			if !vy.IsValid() || !equalValue(vx, vy) {
+			k := iter.Key()
+			if kx != ky {
+				k = k.Convert(ky)
+			}
+			vy := y.MapIndex(k)
+			if !vy.IsValid() || !equalValue(iter.Value(), vy) {
 				return false
 			}
 		}
 		return true
 	case reflect.Func:
-		if x.Type() != y.Type() {
+		if y.Kind() != reflect.Func || x.Type() != y.Type() {
 			return false
 		}
 		if x.IsNil() && y.IsNil() {
@@ -129,13 +113,22 @@ func equalValue(x, y reflect.Value) bool {
 		}
 		panic("cannot compare functions")
 	case reflect.String:
-		return x.String() == y.String()
+		return y.Kind() == reflect.String && x.String() == y.String()
 	case reflect.Bool:
-		return x.Bool() == y.Bool()
+		return y.Kind() == reflect.Bool && x.Bool() == y.Bool()
 	// Ints, uints and floats handled in jsonNumber, at top of function.
 	default:
 		panic(fmt.Sprintf("unsupported kind: %s", x.Kind()))
 	}
+}
+
+// indirectValue steps through pointers and interfaces.
+// It returns the invalid Value for a nil pointer or interface.
+func indirectValue(v reflect.Value) reflect.Value {
+	for v.IsValid() && (v.Kind() == reflect.Pointer || v.Kind() == reflect.Interface) {
+		v = v.Elem()
+	}
+	return v
 }
 
 // hashValue adds v to the data hashed by h. v must not have cycles.
